@@ -28,8 +28,14 @@ Section Box.
     let r := vsub (project (vaxpy xk t (vsub x xk)) bs) xk in nsub (vdot r r) (nmul trSize trSize).
   Definition needs_root_find (x xk : vec) (bs : list bound) (trSize : T) : bool :=
     let d := vsub (project x bs) xk in negb (nleb (vdot d d) (nmul trSize trSize)).
+  (* since repo fix (finding F15): the point found by the root finder is pulled back toward xk when it overshoots the radius
+       d = p - xk; dist = np.linalg.norm(d); if dist > trSize: p = project(xk + (trSize/dist)*d, bounds) *)
+  Definition pull_back (p xk : vec) (bs : list bound) (trSize : T) : vec :=
+    let d := vsub p xk in
+    let dist := vnorm d in
+    if nltb trSize dist then project (vaxpy xk (ndiv trSize dist) d) bs else p.
   Definition project_onto_tr (x xk : vec) (bs : list bound) (trSize t : T) : vec :=
-    if needs_root_find x xk bs trSize then project (vaxpy xk t (vsub x xk)) bs else project x bs.
+    if needs_root_find x xk bs trSize then pull_back (project (vaxpy xk t (vsub x xk)) bs) xk bs trSize else project x bs.
 
   (* the step length used by one SPG iteration (repo commit d722144):
        alpha = line_search(ds, sBs, q, qMax, settings)
